@@ -88,6 +88,17 @@ func runC20(r *Run) {
 			}
 		}
 		r.need(resp != nil && resp.Closure != nil, "handler visits the response cookies with a closure")
+		// the visit may live in a helper: what counts in the handler is the (deferred) call of that helper
+		anchor := ssa.Instruction(resp.Call.Instr)
+		if g := anchor.Parent(); g != h {
+			for _, b := range h.Blocks {
+				for _, in := range b.Instrs {
+					if ci, ok := in.(ssa.CallInstruction); ok && ci.Common().StaticCallee() == g {
+						anchor = in
+					}
+				}
+			}
+		}
 		// after every protected continuation (all c.Next() calls except the documented cfg.Next skip) every path passes the visitor
 		nNext := 0
 		okAll := true
@@ -96,11 +107,21 @@ func runC20(r *Run) {
 				continue
 			}
 			nNext++
-			if _, hit := reach(pointAfter(next), isReturn, nil, func(in ssa.Instruction) bool { return in == resp.Call.Instr }); hit != nil {
+			if _, isDefer := anchor.(*ssa.Defer); isDefer {
+				// deferred: it runs on every exit once the defer statement was executed — which must precede the continuation
+				if _, hit := reach(entryOf(h), func(in ssa.Instruction) bool { return in == next }, nil, func(in ssa.Instruction) bool { return in == anchor }); hit != nil {
+					okAll = false
+				}
+				continue
+			}
+			if _, hit := reach(pointAfter(next), isReturn, nil, func(in ssa.Instruction) bool { return in == anchor }); hit != nil {
 				okAll = false
 			}
 		}
-		r.check(nNext >= 1 && okAll, "handler:response-visitor-after-Next", r.pos(resp.Call.Instr), "every path from every c.Next() (except the cfg.Next skip) to return runs the response-cookie visitor", "a return is reachable after a c.Next() without the response cookies being encrypted")
+		_, deferred := anchor.(*ssa.Defer)
+		r.check(deferred, "handler:response-visitor-on-panic", r.pos(anchor), "the response-cookie visitor is deferred: it also runs when the rest of the chain panics and a recover middleware answers",
+			"the response cookies are encrypted only after c.Next() returned normally: a handler that sets a cookie and then panics — with the recover middleware in front — sends that cookie in clear")
+		r.check(nNext >= 1 && okAll, "handler:response-visitor-after-Next", r.pos(anchor), "every path from every c.Next() (except the cfg.Next skip) to return runs the response-cookie visitor", "a return is reachable after a c.Next() without the response cookies being encrypted")
 		cl := resp.Closure
 		enc := callsMatching(cl, false, nameIs("field:encryptcookie.Config.Encryptor"))
 		r.need(len(enc) == 1, "response visitor calls cfg.Encryptor once")
